@@ -40,5 +40,5 @@ static void prop(Tape &t, Ctx &c) {
     if (rc >= 0 || plausible) c.nontrivial(fmt("load:%d:%u:%llx:%llx:%llx", rc, sel & 15, (unsigned long long) tlv_shape(cert.p, cert.n), (unsigned long long) tlv_shape(key.p, key.n), (unsigned long long) tlv_shape(ca.p, ca.n)));
     if (rc >= 0) c.sample(fmt("matrixSslLoadKeysMem certLen=%zu keyLen=%zu caLen=%zu key_type=%d opts=%d rc=%d", cert.n, key.n, ca.n, opts.key_type, (sel & 7) != 0, rc));
 }
-VF_TARGET("C09.load_keys_mem", prop, 4096, 30)
+VF_TARGET("C09.load_keys_mem", prop, 4096, 45)
 namespace vf { void vf_global_init(int, char **) { matrixSslOpen(); } }
